@@ -208,6 +208,24 @@ func canon(v ssa.Value) ssa.Value {
 		}
 		a, ok := u.X.(*ssa.Alloc)
 		if !ok {
+			// a cell that is not a local alloc (captured variable of a closure):
+			// resolve only through a store to the same address earlier in the block
+			if _, isFree := u.X.(*ssa.FreeVar); isFree {
+				b := u.Block()
+				var found ssa.Value
+				for _, in := range b.Instrs {
+					if in == ssa.Instruction(u) {
+						break
+					}
+					if st, ok := in.(*ssa.Store); ok && st.Addr == u.X {
+						found = st.Val
+					}
+				}
+				if found != nil {
+					v = found
+					continue
+				}
+			}
 			return v
 		}
 		sts := reachingStores(a, u)
@@ -223,12 +241,23 @@ func canon(v ssa.Value) ssa.Value {
 // (two loads of x.f with structurally equal addresses are identified; stores in
 // between are ignored — used only to recognise `if x.f != nil { return x.f }`).
 func sameValue(a, b ssa.Value, depth int) bool {
-	a, b = canon(a), canon(b)
 	if a == b {
 		return true
 	}
 	if depth <= 0 {
 		return false
+	}
+	// two loads of the same non-local cell (captured variable): identified before canonicalising
+	if ua, ok := a.(*ssa.UnOp); ok && ua.Op == token.MUL {
+		if ub, ok := b.(*ssa.UnOp); ok && ub.Op == token.MUL && ua.X == ub.X {
+			if _, isFree := ua.X.(*ssa.FreeVar); isFree {
+				return true
+			}
+		}
+	}
+	a, b = canon(a), canon(b)
+	if a == b {
+		return true
 	}
 	switch x := a.(type) {
 	case *ssa.UnOp:
